@@ -108,7 +108,6 @@ GUARDED = [
     (r"^fixed_bump_vec::FixedBumpVec::<'a, T>::extend_with_unchecked$", r"^via write_with$", "SetLenOnDropByPtr", "length committed by the guard"),
     (r"^mut_bump_vec_rev::MutBumpVecRev::<T, A>::extend_with$", r"^via write_with$", "SetLenOnDrop", "length committed by the guard"),
     (r"^<bump_vec::splice::Splice<'_, I, A> as core::ops::Drop>::drop$", r"^via fill$", "IntoIter", "collected remainder is dropped on unwind"),
-    (r"^<owned_slice::drain::Drain<'_, T> as core::ops::Drop>::drop$", r"^via truncate$", "IntoIter", "remaining drained elements"),
     (r"^bump_vec::BumpVec::<T, A>::splice$", r"^into_iter$", "Drain", "the Drain restores the tail"),
     (r"^<bump_vec::drain::Drain<'_, T, A> as core::ops::Drop>::drop$", r"^drop_in_place<\[T\]>$", "DropGuard", "tail is moved back even if an element's Drop panics"),
     (r"^<bump_vec::into_iter::IntoIter<T, A> as core::ops::Drop>::drop$", r"^drop_in_place<\[T\]>$", "DropGuard", "buffer is released even if an element's Drop panics"),
@@ -123,6 +122,7 @@ SAFE_ORDER = [
     (r"^polyfill::iter::partition_in_place$", r".*", "swap-based: the slice is valid at every callback"),
     (r"DropGuard<.*> as core::ops::Drop>::drop$", r"^drop_in_place<\[U\]>$", "guard's own cleanup"),
     (r"^<bump_vec::drain::Drain<'_, T, A> as core::ops::Drop>::drop$", r"^via truncate$", "inner DropGuard moves the tail back"),
+    (r"^<owned_slice::drain::Drain<'_, T> as core::ops::Drop>::drop$", r"^via truncate$", "zero-sized arm: the iterator was forgotten and truncate lowers the length before dropping (C06.R1, C06.R5)"),
     (r".*", r"^drop<(F|P|impl .*)>$", "drop of the callback object itself at scope end, after the state was committed"),
     (r"( as core::ops::Drop>::drop|::drop_inner)$", r"^drop_in_place<", "the owner's final drop of its own elements: nothing observes them afterwards"),
     (r"::(extend_with_unchecked|extend_with)$", r"^drop<T>$", "drop of the unused template value after the length was committed"),
@@ -204,7 +204,7 @@ def r2_guards(ctx, P):
     missing = [GUARDED[k][0] for k in range(len(GUARDED)) if k not in seen_guard_rows and not (nodef and ("plice" in GUARDED[k][0] or "bump_vec::drain::Drain" in GUARDED[k][0]))]
     for m in missing:
         ctx.need(False, R, f"tabled critical section {m} (no critical pair found for it any more)")
-    ctx.floor(R, "guarded critical (body, callback) pairs", n_guard, 13 if nodef else 15)
+    ctx.floor(R, "guarded critical (body, callback) pairs", n_guard, 12 if nodef else 14)
     ctx.note(f"{ctx.config}: {n_guard} guarded, {n_safe} safe-order, {n_unc} unclassified critical pairs; {len(ur)} collection "
              "bodies can reach user code")
 
@@ -325,6 +325,58 @@ def r4_owners_drop(ctx, P):
                  where=P.body(did).where(), site="drop glue")
 
 
+def owner_adts(P):
+    """ADTs whose Drop impl reaches drop_in_place (they own elements)."""
+    out = set()
+    for adt, did in P.drop_impl.items():
+        parents = P.reach_fns([did], opaque_traits=("alloc::Allocator",))
+        for st in parents:
+            bb = P.body(st[0])
+            if bb is not None and any(t["f"].get("name") == "drop_in_place" and t["f"].get("krate") == "core" for s, t in bb.calls()):
+                out.add(adt)
+                break
+    return out
+
+
+def r5_double_accounting(ctx, P):
+    R = "C06.R5"
+    ctx.rule(R, "no path drops the elements of an owning local explicitly (extent derived from that local) and then drops the local itself")
+    owners = owner_adts(P)
+    ctx.floor(R, "owning types (Drop reaches drop_in_place)", len(owners), 6)
+    n = 0
+    for b in coll_bodies(P):
+        for ds, dt in b.drops():
+            if b.is_cleanup(ds.bb) or dt["p"]["p"]:
+                continue
+            adts = [a for a in dt.get("adts", []) if a in owners]
+            if not adts or (dt.get("adt") not in owners):
+                continue
+            L = dt["p"]["l"]
+            if L <= b.argc and b.item["name"] == "drop":
+                pass
+            n += 1
+            bad = []
+            for s, t in b.calls():
+                nm = t["f"].get("name")
+                if nm not in ("set_len", "truncate", "drop_in_place", "dec_len", "inc_len"):
+                    continue
+                if not b.can_reach(s, ds) or b.is_cleanup(s.bb):
+                    continue
+                pl = b.prov_place({"l": L, "p": []}, s)
+                if pl[0] in ("undef", "unknown", "param"):
+                    continue
+                for a in t["args"]:
+                    av = b.prov_operand(a, s)
+                    if expr_mentions(av, lambda x: x == pl) and expr_mentions(av, lambda x: x[0] == "call" and x[1].split("::")[-1] in ("len", "as_slice", "as_mut_slice")):
+                        bad.append((nm, show(av)[:100]))
+            nmv = b.locals[L].get("name") or f"_{L}"
+            ctx.inst(R, b.path, not bad, f"owning local `{nmv}` ({dt['adt'].split('::')[-1]}) is dropped once; no explicit drop of its extent precedes it" if not bad else
+                     f"the elements of `{nmv}` are dropped explicitly ({bad[0][0]}({bad[0][1]}) takes its extent from `{nmv}`) and `{nmv}` "
+                     f"({dt['adt'].split('::')[-1]}, which drops its remaining elements) is dropped afterwards on the same path: double drop",
+                     where=b.where(ds), site=f"drop of {nmv}")
+    ctx.floor(R, "drops of owning locals examined", n, 10)
+
+
 def run(ctx, progs):
     ctx.assume("rustc's drop elaboration: a moved value is not dropped again; unwind edges and drop flags are as in MIR")
     ctx.assume("user code = calls of foreign-trait methods on type parameters (closures, Clone, PartialEq, Iterator) and drops of "
@@ -336,4 +388,5 @@ def run(ctx, progs):
         r2b_extract_if(ctx, P)
         r3_handover(ctx, P)
         r4_owners_drop(ctx, P)
+        r5_double_accounting(ctx, P)
     ctx.config = None
